@@ -82,8 +82,40 @@ def showCheckErr : CheckErr → String
   | .keyword => "keyword" | .notFunc => "notfunc" | .nilFunc => "nilfunc" | .param i => s!"param{i}" | .ret => "ret" | .ret1 => "ret1"
   | .ret2NotError => "ret2" | .tooManyResults => "toomany"
 
+/-- `C (<namehex> <fval…> E)*` repeated: the Funcs map of each call of a history -/
+partial def parseHistory (ws : List String) : Option (List (List (Bytes × FVal))) :=
+  let rec entries (ws : List String) (acc : List (Bytes × FVal)) : Option (List (Bytes × FVal) × List String) :=
+    match ws with
+    | [] => some (acc.reverse, [])
+    | "C" :: _ => some (acc.reverse, ws)
+    | name :: rest =>
+      let fv := rest.takeWhile (· != "E")
+      match fromHex name, parseFVal fv, rest.dropWhile (· != "E") with
+      | some n, some f, "E" :: tail => entries tail ((n, f) :: acc)
+      | _, _, _ => none
+  match ws with
+  | [] => some []
+  | "C" :: rest =>
+    match entries rest [] with
+    | some (m, tail) => (parseHistory tail).map (m :: ·)
+    | none => none
+  | _ => none
+
+def showHistory (cache : Option Table) : List (List (Bytes × FVal)) → List String
+  | [] => []
+  | m :: rest =>
+    let (e, c') := setupStep cache m
+    (match e, cache with
+      | some e, _ => "err:" ++ showCheckErr e
+      | none, some _ => "cached"
+      | none, none => "ok") :: showHistory c' rest
+
 def handle (args : List String) : String :=
   match args with
+  | "hist" :: rest =>
+    match parseHistory rest with
+    | some h => String.intercalate " " (showHistory none h)
+    | none => "bad-request"
   | "call" :: n :: v :: rest =>
     match parseSig (v == "1") rest with
     | some (sig, "A" :: tail) =>
